@@ -229,6 +229,14 @@ func swarmAppsafe(t *Tape) FleetCfg {
 	c.Work.MaxOps = 1 + t.Choose("cfg-maxops2", 2)
 	// periodic forced snapshots: uploads that are not triggered by a change
 	c.ForceInt = pick(t, "cfg-forceint2", 0, 0, 5*time.Second, 20*time.Second)
+	if t.Choose("cfg-forced-focus", 8) == 7 {
+		// directed: frequent forced snapshots of an unchanged database, and
+		// the application commits right before the upload step
+		c.ForceInt = 3 * time.Second
+		c.PreferPoints = []string{"sync:before-send", "sync:before-change-check"}
+		c.PreferBias = 1000
+		c.AppRate = 60
+	}
 	return c
 }
 
